@@ -63,7 +63,9 @@ def make_cases(tier, seed, n_random=None, maxlen=None):
     from vlib.dom_cfg import SPARSE_IDS as dom_cfg_ids
     for i, (name, g) in enumerate(doms[:40]):
         ids = {a: dom_cfg_ids[k] for k, a in enumerate(sorted(g.V))}
-        gi = type(g)(g.S, frozenset(ids.values()), [(w, h, tuple(ids.get(y, y) for y in b)) for w, h, b in g.rules])
+        # the declared vocabulary is larger than the set of terminals that occur in rules (an LM-sized V): one more id, above the used ones,
+        # that no rule mentions - every context containing it is non-viable (seeded change C01-10)
+        gi = type(g)(g.S, frozenset(ids.values()) | {dom_cfg_ids[len(ids)]}, [(w, h, tuple(ids.get(y, y) for y in b)) for w, h, b in g.rules])
         for alg in ALGS:
             cases.append(dict(name=name + "#ids", g=gi, sr=SEMIRINGS[i % 2], alg=alg, rename="id", order=None, heap="real", pre_eos=False,
                               maxlen=bound(tier, g, maxlen)))
